@@ -114,6 +114,13 @@ def _c12_judge_value(x):
     return valid, valid or free, val
 
 
+def ref_auto_piece_length(size):
+    """the documented automatic choice: the smallest power of two >= 16 KiB with at most 1000 pieces... as the code's own
+    get_piece_length is proved to compute (C12 contract); here only: the same function of the TRUE payload size"""
+    from torrentfile import utils
+    return utils.get_piece_length(size)
+
+
 def _c12_case(acc, case):
     from torrentfile import utils
     route, arg = case["route"], case["arg"]
@@ -129,6 +136,33 @@ def _c12_case(acc, case):
                 acc.fail("C12:auto:monotone", {"route": "auto", "arg": [prev[0], s]},
                          f"get_piece_length({prev[0]}) = {prev[1]} > get_piece_length({s}) = {r}", "non-decreasing")
             prev = (s, r)
+        return
+    if route == "auto-path":
+        # the automatic choice for a real payload: the piece length chosen must be the one for the payload's true size (the sizes the
+        # hashers read: symbolic links to files count with the size of what they point to); sparse files keep this cheap
+        with tempdir() as d:
+            store = os.path.join(d, "store")
+            os.makedirs(store)
+            root = os.path.join(d, "payload")
+            os.makedirs(root)
+            total = 0
+            for i, (n, linked) in enumerate(arg):
+                target = os.path.join(store if linked else root, f"f{i}.bin")
+                with open(target, "wb") as fh:
+                    fh.truncate(n)
+                if linked:
+                    os.symlink(target, os.path.join(root, f"f{i}.bin"))
+                total += n
+            try:
+                with quiet():
+                    got = utils.path_piece_length(root)
+            except BaseException as e:       # noqa: BLE001
+                acc.fail("C12:auto-path:raised", case, f"{type(e).__name__}: {e}", "a piece length")
+                return
+            want = ref_auto_piece_length(total)
+            if got != want:
+                acc.fail("C12:auto-path:not-the-choice-for-the-payload-size" + (":symlinked" if any(l for _, l in arg) else ""), case,
+                         f"path_piece_length = {got} for a payload of {total} bytes", want)
         return
     # explicit argument through one of the routes
     intval = None
@@ -250,6 +284,12 @@ def h_c12(tier, seed, hints):
         sizes.add(rnd.randrange(0, 2 ** rnd.randrange(1, 51)))
     _c12_case(acc, {"route": "auto", "arg": sorted(sizes)})
     acc.case(("auto", len(sizes)), {"route": "auto", "arg": sorted(sizes)[:8]})
+    MiB = 2 ** 20
+    for layout in ([(17 * MiB, False)], [(35 * MiB, True)], [(MiB, False), (17 * MiB, True), (35 * MiB, True)], [(16384 * 1000 + 1, False)],
+                   [(16384 * 1000, False), (1, True)]):
+        case = {"route": "auto-path", "arg": layout}
+        _c12_case(acc, case)
+        acc.case(("auto-path", json.dumps(layout)), case)
     return acc.result()
 
 
@@ -614,6 +654,13 @@ def _c17_case(acc, case):
     with tempdir() as d:
         name, tree = small_trees(0)[case.get("tree", 1)]
         mf, _ = make_metafile(d, name, tree, case["version"], announce=["http://orig/a"], comment="orig")
+        if case.get("symlink"):
+            # the metafile path handed to the edit is a symbolic link to the real file (a library layout)
+            os.makedirs(os.path.join(d, "store"))
+            real = os.path.join(d, "store", "real.torrent")
+            os.replace(mf, real)
+            mf = os.path.join(d, "link.torrent")
+            os.symlink(real, mf)
         old = open(mf, "rb").read()
         counter = {"n": 0}
         target, kind = case["at"], case["fault"]
@@ -783,7 +830,7 @@ def h_c17(tier, seed, hints):
               "(open-for-write, write, remove, replace, rename, mkstemp, copymode), n = 1..(number of operations), and un-encodable "
               "values; afterwards the metafile path must hold the complete old or the complete edited metafile",
               "3 versions x 4 requests x every operation index x {oserror, short, die (exception), exit (os._exit in a forked child: "
-              "nothing is unwound or flushed; before and right after the operation)}, also with rename/replace failing EXDEV "
+              "nothing is unwound or flushed; before and right after the operation)}, also with the metafile path a symbolic link, and with rename/replace failing EXDEV "
               "(cross-device) so that fall-back copy paths are exercised")
     reqs = [{"comment": "new comment"}, {"announce": ["http://n/1", "http://n/2"], "private": True},
             {"comment": "", "announce": ""}, {"url-list": "http://w/1 http://w/2", "source": "S"}]
@@ -799,6 +846,15 @@ def h_c17(tier, seed, hints):
                     case = {"prop": "C17", "version": version, "req": req, "at": at, "fault": kind}
                     _c17_case(acc, case)
                     acc.case((version, ri, at, kind), case if version == 1 and ri == 0 else None)
+        # the same with the metafile path being a symbolic link (one request per version)
+        req = reqs[version % len(reqs)]
+        n = _c17_case(acc, {"prop": "C17", "version": version, "req": req, "at": 10 ** 6, "fault": "none", "symlink": True}) or 0
+        acc.case(("nofault-symlink", version))
+        for at in range(1, n + 3):
+            for kind in ("oserror", "short", "die", "exit", "exit-after"):
+                case = {"prop": "C17", "version": version, "req": req, "at": at, "fault": kind, "symlink": True}
+                _c17_case(acc, case)
+                acc.case(("symlink", version, at, kind))
         for bi, req in enumerate(bad):
             case = {"prop": "C17", "version": version, "req": req, "at": 10 ** 6, "fault": "unencodable"}
             _c17_case(acc, case)
@@ -829,10 +885,11 @@ C20_FIELD = {"announce": ("top", "announce"), "web-seed": ("top", "url-list"), "
              "piece-length": ("info", "piece length")}
 
 
-def _c20_run(route, d, payload, opts, version, order):
+def _c20_run(route, d, payload, opts, version, order, out=None):
     """create through one route; returns decoded metafile (bytes keys) without creation date"""
     from torrentfile.cli import execute
-    out = os.path.join(d, f"out_{route}_{order}.torrent")
+    out = out or os.path.join(d, f"out_{route}_{order}.torrent")
+    opts = {k: v for k, v in opts.items() if k != "out"}
     if route == "keyword":
         from torrentfile.torrent import TorrentFile, TorrentAssembler
         kw = {C20_KW[k]: v for k, v in opts.items()}
@@ -874,7 +931,7 @@ def _c20_run(route, d, payload, opts, version, order):
         lines = ["[config]"]
         for k, v in opts.items():
             if v is True:
-                lines.append(f"{k} = true")
+                lines.append(f"{k} = " + {"ini": "true", "ini-cap": "True", "ini-upper": "TRUE"}.get(order, "true"))
             elif isinstance(v, list):
                 lines.append(f"{k} =")
                 lines += [f"    {x}" for x in v]
@@ -893,14 +950,46 @@ def _c20_run(route, d, payload, opts, version, order):
     return m
 
 
+def _c20_inside_case(acc, case):
+    """`out` names an existing file INSIDE the content directory (re-creating a torrent in place): every route works on its own
+    identical copy of the payload; the three metafiles must still be identical"""
+    opts, version = case["opts"], case["version"]
+    with tempdir() as d:
+        name, tree = small_trees(0)[1]
+        old = content(7, "oldmeta", 183)
+        results = {}
+        for route, order in (("keyword", "kw"), ("flags", "first"), ("config", "ini")):
+            sub = os.path.join(d, f"copy_{route}")
+            os.makedirs(sub)
+            payload = ref.write_tree(sub, name, dict(tree, **{"old.torrent": old}))
+            out = os.path.join(payload, "old.torrent")
+            os.chdir(sub)
+            try:
+                m = _c20_run(route, sub, payload, dict(opts, out=out) if route != "keyword" else opts, version, order, out=out)
+                results[route] = m
+            except BaseException as e:      # noqa: BLE001
+                results[route] = f"raised {type(e).__name__}: {e}"
+        base = results["keyword"]
+        for route, m in results.items():
+            if route != "keyword" and m != base:
+                what = m if not isinstance(m, dict) else sorted(k.decode() for k in set(m.get(b"info", {})) | set(base.get(b"info", {}))
+                                                                 if m.get(b"info", {}).get(k) != base.get(b"info", {}).get(k)) if isinstance(base, dict) else "?"
+                acc.fail(f"C20:{route}:out-inside-content:differs", case, f"differs from the keyword route: {what}", "identical metafiles")
+
+
 def _c20_case(acc, case):
+    if case.get("out_inside"):
+        return _c20_inside_case(acc, case)
     opts, version = case["opts"], case["version"]
     with tempdir() as d:
         name, tree = small_trees(0)[1]
         payload = ref.write_tree(d, name, tree)
         os.chdir(d)
         results = {}
-        for route, order in (("keyword", "kw"), ("flags", "first"), ("flags", "last"), ("flags", "middle"), ("config", "ini")):
+        routes = [("keyword", "kw"), ("flags", "first"), ("flags", "last"), ("flags", "middle"), ("config", "ini")]
+        if any(v is True for v in opts.values()):
+            routes += [("config", "ini-cap"), ("config", "ini-upper")]       # the switch spelled True / TRUE in the configuration file
+        for route, order in routes:
             try:
                 results[(route, order)] = _c20_run(route, d, payload, opts, version, order)
             except BaseException as e:      # noqa: BLE001
@@ -952,6 +1041,9 @@ def h_c20(tier, seed, hints):
             case = {"prop": "C20", "opts": {k: C20_OPTS[k] for k in sub}, "version": version}
             _c20_case(acc, case)
             acc.case((version, tuple(sub)), case if len(sub) == 2 else None)
+        case = {"prop": "C20", "opts": {"comment": "in place"}, "version": version, "out_inside": True}
+        _c20_case(acc, case)
+        acc.case((version, "out-inside"), case)
     return acc.result()
 
 
@@ -1533,3 +1625,63 @@ def r_c19_all(acc, case):
         _c19x_case(acc, case)
     elif _r_c19_base:
         _r_c19_base(acc, case)
+
+
+# =============================================================================================== C16 (additional scenario)
+def _c16x_case(acc, case):
+    """absent data is read as zeros: an all-zero file that is missing verifies, whatever the process rechecked before
+    (a recheck at another piece length that also had to substitute zeros comes first)"""
+    from torrentfile.recheck import Checker
+    with tempdir() as d:
+        pl1, pl2 = case["first_pl"], case["pl"]
+        tree1 = {"a.bin": content(3, "a", 2 * pl1 + 5), "b.bin": content(3, "b", 3 * pl1 + 1)}
+        mf1, p1 = make_metafile(d, "alpha", tree1, case["version"], pl=pl1)
+        os.remove(os.path.join(p1, "b.bin"))
+        zeros = bytes(case["zeros"])
+        tree2 = {"data.bin": content(3, "d", pl2 + 9), "zeros.bin": zeros}
+        mf2, p2 = make_metafile(d, "beta", tree2, case["version"], pl=pl2)
+        os.remove(os.path.join(p2, "zeros.bin"))
+        try:
+            with quiet():
+                Checker(mf1, p1).results()
+                r = Checker(mf2, p2).results()
+        except BaseException as e:      # noqa: BLE001
+            acc.fail(f"C16x:absent-zero-file:raised:v{case['version']}", case, f"{type(e).__name__}: {e}", 100)
+            return
+        if r != 100:
+            acc.fail(f"C16x:absent-zero-file-after-recheck-at-other-piece-length:v{case['version']}", case, f"recheck reports {r}",
+                     "100 (every piece of the absent all-zero file hashes to its recorded value)")
+
+
+def _c16x_cases():
+    return [{"prop": "C16", "kind": "absent-zero-file", "version": v, "first_pl": f, "pl": 16384, "zeros": z}
+            for v in (2, 3) for f in (32768, 65536) for z in (40000, 16384)]
+
+
+_h_c16_base = HARNESS.get("C16")
+_r_c16_base = REPLAY.get("C16")
+
+
+@harness("C16")
+def h_c16_all(tier, seed, hints):
+    # the history scenario runs FIRST: it must be the first recheck of this process that substitutes zeros for absent data
+    acc = Acc("C16", "", "")
+    for case in _c16x_cases():
+        _c16x_case(acc, case)
+        acc.case(json.dumps(case, sort_keys=True), case)
+    extra = acc.result()
+    res = _h_c16_base(tier, seed, hints) if _h_c16_base else Acc("C16", "", "").result()
+    res["cases"] += extra["cases"]
+    res["distinct_nontrivial"] += extra["distinct_nontrivial"]
+    res["failures"] += extra["failures"]
+    res["rule"] = (res.get("rule") or "") + ("; plus an absent all-zero file at 16 KiB pieces after a recheck at another piece length that also "
+                                             "substituted zeros (v2 / hybrid)")
+    return res
+
+
+@replayer("C16")
+def r_c16_all(acc, case):
+    if case.get("kind") == "absent-zero-file":
+        _c16x_case(acc, case)
+    elif _r_c16_base:
+        _r_c16_base(acc, case)
